@@ -126,6 +126,7 @@ class Engine:
         self.solver.set("timeout", 20000)      # wall-clock safety net only; the resource limit decides
         self.facts = T.Facts()
         self._nfacts_pushed = 0
+        self.gn_terms, self._gn_const, self.gn_override = [], None, None
         self.pc = []
         self.prefix = list(prefix)
         self.trace = []
